@@ -60,7 +60,7 @@ func run(r *vk.Run) {
 		}
 		runHistory(r, t, 0, true)
 	}
-	per := r.Pick(70, 6000)
+	per := r.Pick(70, 9000)
 	caseNo := 0
 	for hno := 1; hno <= per; hno++ {
 		for _, t := range targets {
